@@ -31,7 +31,7 @@ func DefaultsUniverse() *Universe {
 		{P(Float32), "0.0"}, {P(Float32), "3.4028235e38"}, {P(Float32), "1.0e-7"}, {P(Float32), "-2.5"},
 		{P(Float64), "0.0"}, {P(Float64), "1.0e21"}, {P(Float64), "-1.5e-7"}, {P(Float64), "1.7976931348623157e308"}, {P(Float64), "-0.0"}, {P(Float32), "-0.0"},
 		{P(Bool), "true"}, {P(Bool), "false"},
-		{P(String), `""`}, {P(String), `"a\"b\\cé"`}, {P(String), `"''"`}, {P(String), `"List(x)"`}, {P(String), `"line\nbreak\ttab"`},
+		{P(String), `""`}, {P(String), `"a\"b\\cé"`}, {P(String), `"''"`}, {P(String), `"List(x)"`}, {P(String), `"line\nbreak\ttab"`}, {P(String), `"cr\r\nlf \"q\" back\\slash"`},
 		{P(Bytes), `""`}, {P(Bytes), `"AB"`}, {P(Bytes), `"ÿ\u0000"`},
 		{e3, `"RED"`}, {e3, `"GREEN"`}, {e3, `"BLUE"`},
 		{fx, `"xy"`}, {fx, `"ÿ\u0000"`},
@@ -39,7 +39,7 @@ func DefaultsUniverse() *Universe {
 		{small, `{"a":5}`}, {small, `{"a":-1,"b":"x\"y"}`},
 		{recd, `{"r":1}`}, {recd, `{"r":2,"s":"given"}`},
 		{un, `{"int":3}`}, {un, `{"string":"s"}`}, {un, `{"d.RecSmall":{"a":1}}`}, {un, `{"array":[1,2]}`},
-		{unn, `{"long":4}`}, {unn, `{"d.E3":"BLUE"}`},
+		{unn, `{"long":4}`}, {unn, `{"d.E3":"BLUE"}`}, {unn, `null`},
 		{ArrayOf(P(Int32)), `[]`}, {ArrayOf(P(Int32)), `[1,2,3]`}, {ArrayOf(P(String)), `["a","","b\"c"]`},
 		{ArrayOf(ArrayOf(P(Int32))), `[[]]`}, {ArrayOf(ArrayOf(P(Int32))), `[[1],[],[2,3]]`},
 		{ArrayOf(small), `[{"a":1},{"a":2,"b":"z"}]`}, {ArrayOf(recd), `[{"r":7}]`}, {ArrayOf(e3), `["RED","BLUE"]`}, {ArrayOf(P(Bytes)), `["AB",""]`},
